@@ -226,14 +226,17 @@ def check(run):
         run.notes.append(msg)
     run.extra_cov["model_drift"] = len(drift)
     run.extra_cov["guarded_event_counts"] = dict(stats)
-    if not stats["deletes"] or not stats["failed"] or not stats["startFailed"] or not stats["cuts"]:
-        raise vlib.InfraError("vacuous run: guarded events missing %s" % dict(stats))
     t1 = time.time()
     run.validate("Orchestration_Trace", "Orchestration_Trace.cfg", files + probe_files, heap="2g", par=min(vlib.NCPU, 16),
                  timeout=2400)
     run.notes.append("phases: generate %.0fs, probe (build + fault-free paths) %.0fs, replay %.0fs, waiting for closed models %.0fs, "
                      "trace validation %.0fs" % (t_gen, t_probe, t_rec, t_wait, time.time() - t1))
     run.exhaustive = run.tier == "thorough"   # thorough replays every call-position variant of every base path
+    if not stats["deletes"] or not stats["failed"] or not stats["startFailed"] or not stats["cuts"]:
+        # vacuity guard - but a real-code violation found on the way is a verdict and stands
+        fresh = [v for v in run.viol if run.pmap.get(v.get("guard")) == run.pid and vlib.match_known(run.known, run.pid, v) is None]
+        if not fresh:
+            raise vlib.InfraError("vacuous run: guarded events missing %s" % dict(stats))
     run.samples = [{"scenario": scen[i]["name"], "steps": scen[i]["osteps"]} for i in (0, len(scen_model), len(scen) // 2, len(scen) - 1)]
     run.assumptions += [
         "controller-runtime fake client + harness choke point stand in for the API server; a crash at call n = every later call "
